@@ -140,9 +140,71 @@ def scripts():
     return out
 
 
+def scripts2(maxlen=3):
+    """every script of <= maxlen items over a small alphabet of compound instructions"""
+    items = ["req", "notify", "yield", "spawn_req", "spawn_stream", "sel_rr", "sel_hr", "join_rr", "join_hr",
+             "joinh", "abort", "stream1"]
+    needs_h = {"sel_hr", "join_hr", "joinh", "abort"}
+    out = []
+    for L in range(1, maxlen + 1):
+        for combo in itertools.product(items, repeat=L):
+            nh = 0
+            ok = True
+            for it in combo:
+                if it in needs_h and nh == 0:
+                    ok = False
+                    break
+                if it.startswith("spawn"):
+                    nh += 1
+            if not ok or nh > 2 or sum(1 for it in combo if it == "stream1") > 1:
+                continue
+            t = [0]
+            tid = [2]
+
+            def tag():
+                t[0] += 1
+                return t[0]
+            code = []
+            h = 0
+            for it in combo:
+                if it == "req":
+                    code += [R(tag()), E(tag())]
+                elif it == "notify":
+                    code.append({"op": "notify", "tag": tag(), "src": {"c": 1}})
+                elif it == "yield":
+                    code.append({"op": "yield"})
+                elif it == "spawn_req":
+                    h += 1
+                    tid[0] += 1
+                    code.append({"op": "spawn", "script": {"tid": tid[0], "code": [R(tag()), E(tag())]}, "h": h})
+                elif it == "spawn_stream":
+                    h += 1
+                    tid[0] += 1
+                    code.append({"op": "spawn", "script": {"tid": tid[0], "code": [
+                        {"op": "open", "tag": tag(), "src": {"c": 1}, "s": 1},
+                        {"op": "next", "s": 1, "dst": 1, "else": 5}, E(tag()), {"op": "goto", "pc": 2}]}, "h": h})
+                elif it == "sel_rr":
+                    code += [{"op": "select", "leaves": [LR(tag()), LR(tag())], "dst": 1, "idx": 2}, E(tag(), 2)]
+                elif it == "sel_hr":
+                    code += [{"op": "select", "leaves": [{"k": "joinh", "h": h}, LR(tag())], "dst": 1, "idx": 2}, E(tag(), 2)]
+                elif it == "join_rr":
+                    code += [{"op": "join", "leaves": [LR(tag()), LR(tag())], "dst": [1, 2]}, E(tag())]
+                elif it == "join_hr":
+                    code += [{"op": "join", "leaves": [{"k": "joinh", "h": h}, LR(tag())], "dst": [0, 1]}, E(tag())]
+                elif it == "joinh":
+                    code += [{"op": "joinh", "h": h}, E(tag())]
+                elif it == "abort":
+                    code.append({"op": "abort", "h": h})
+                elif it == "stream1":
+                    code += [{"op": "open", "tag": tag(), "src": {"c": 1}, "s": 1},
+                             {"op": "next", "s": 1, "dst": 1, "else": len(code) + 4}, E(tag())]
+            out.append(A(code))
+    return out
+
+
 if __name__ == "__main__":
     fam = sys.argv[1]
-    progs = {"cmd1": cmd1, "scripts": scripts}[fam]()
+    progs = {"cmd1": cmd1, "scripts": scripts, "scripts2": lambda: scripts2(2), "scripts3": lambda: scripts2(3)}[fam]()
     if len(sys.argv) > 2:
         lo, hi = map(int, sys.argv[2].split(":"))
         progs = progs[lo:hi]
